@@ -14,6 +14,7 @@ import (
 // exactly repeatable execution.
 type Event struct {
 	Name   string // stable descriptor, e.g. "wake:c2@remote.enter", "deliver:ok", "cancel:c1"
+	Task   string // the task this event lets run ("" = an event of the environment: transport, clock, rotation, cancellation)
 	Weight int    // relative probability in search mode (0 is treated as 1)
 	Drain  bool   // may be used to finish the run once the step budget or script is exhausted
 	Apply  func()
@@ -35,6 +36,19 @@ type Sched struct {
 	Script   []string // replay: follow these event names (skipping ones not enabled)
 	Replay   bool
 	MaxSteps int
+
+	// Strategy of the search (chosen from the tape at the first step unless set): "uniform" = weighted random choice
+	// among all enabled events; "pct" = random task priorities, the enabled task of highest priority always runs, and
+	// at PCTDepth seeded steps the running task drops below all others (Burckhardt et al., ASPLOS 2010: a bug of
+	// depth d is found with probability >= 1/(n*k^(d-1))); "starve" = one seeded task runs only when nothing else
+	// can. Environment events keep a share of one step in four under "pct" and "starve". Replay follows the recorded
+	// event names and ignores the strategy.
+	Strategy string
+	PCTDepth int
+	prio     map[string]int
+	changeAt map[int]bool
+	victim   string
+	lowest   int
 
 	Trace []string // names of the applied events, in order
 	Step  int      // number of events applied so far == sequence number of the next one
@@ -250,6 +264,118 @@ func (s *Sched) Release(task, outcome string) {
 	p.ch <- outcome
 }
 
+// weighted picks one of the candidate events (indices into evs) by weight.
+func weighted(ch *Chooser, evs []Event, idx []int) *Event {
+	total := 0
+	for _, i := range idx {
+		w := evs[i].Weight
+		if w <= 0 {
+			w = 1
+		}
+		total += w
+	}
+	x := ch.Int(total)
+	for _, i := range idx {
+		w := evs[i].Weight
+		if w <= 0 {
+			w = 1
+		}
+		if x < w {
+			return &evs[i]
+		}
+		x -= w
+	}
+	return &evs[idx[len(idx)-1]]
+}
+
+// choose applies the search strategy of this run to the enabled events.
+func (s *Sched) choose(ch *Chooser, evs []Event) *Event {
+	st := s.Tape.Sub(s.Stream + "/strategy")
+	if s.Strategy == "" {
+		switch x := st.Int(10); {
+		case x < 5:
+			s.Strategy = "uniform"
+		case x < 8:
+			s.Strategy = "pct"
+		default:
+			s.Strategy = "starve"
+		}
+	}
+	all := make([]int, len(evs))
+	var env, tasked []int
+	for i := range evs {
+		all[i] = i
+		if evs[i].Task == "" {
+			env = append(env, i)
+		} else {
+			tasked = append(tasked, i)
+		}
+	}
+	if s.Strategy == "uniform" || len(tasked) == 0 {
+		return weighted(ch, evs, all)
+	}
+	if s.prio == nil {
+		s.prio, s.changeAt = map[string]int{}, map[int]bool{}
+		if s.PCTDepth == 0 {
+			s.PCTDepth = 1 + st.Int(3)
+		}
+		if s.Strategy == "pct" {
+			for i := 1; i < s.PCTDepth; i++ {
+				s.changeAt[1+st.Int(40)] = true
+			}
+		}
+	}
+	// priorities are handed out in the order tasks are first seen enabled (deterministic: evs is ordered)
+	for _, i := range tasked {
+		t := evs[i].Task
+		if _, ok := s.prio[t]; !ok {
+			if s.Strategy == "starve" {
+				// the k-th task seen becomes the victim with probability 1/2 each until one is chosen
+				if s.victim == "" && st.Bool(1, 2) {
+					s.victim = t
+					s.prio[t] = -1
+				} else {
+					s.prio[t] = 1
+				}
+			} else {
+				s.prio[t] = 1 + st.Int(1000000)
+			}
+		}
+	}
+	if len(env) > 0 && ch.Int(4) == 0 {
+		return weighted(ch, evs, env)
+	}
+	best := ""
+	for _, i := range tasked {
+		t := evs[i].Task
+		if best == "" || s.prio[t] > s.prio[best] {
+			best = t
+		}
+	}
+	if s.Strategy == "pct" && s.changeAt[s.Step] {
+		s.lowest--
+		s.prio[best] = s.lowest
+		best = ""
+		for _, i := range tasked {
+			t := evs[i].Task
+			if best == "" || s.prio[t] > s.prio[best] {
+				best = t
+			}
+		}
+	}
+	var cand []int
+	for _, i := range tasked {
+		if s.Strategy == "starve" {
+			if s.prio[evs[i].Task] == s.prio[best] {
+				cand = append(cand, i)
+			}
+		} else if evs[i].Task == best {
+			cand = append(cand, i)
+		}
+	}
+	return weighted(ch, evs, cand)
+}
+
 // Run drives the world until no event is enabled. enabled is called at every
 // quiescence point and must return the events in a deterministic order. after
 // is called after each applied event (and the quiescence that follows it) and
@@ -298,26 +424,7 @@ func (s *Sched) Run(enabled func(draining bool) []Event, after func(step int, ev
 				return nil
 			}
 		} else {
-			total := 0
-			for i := range evs {
-				w := evs[i].Weight
-				if w <= 0 {
-					w = 1
-				}
-				total += w
-			}
-			x := ch.Int(total)
-			for i := range evs {
-				w := evs[i].Weight
-				if w <= 0 {
-					w = 1
-				}
-				if x < w {
-					pick = &evs[i]
-					break
-				}
-				x -= w
-			}
+			pick = s.choose(ch, evs)
 		}
 		name := pick.Name
 		s.Trace = append(s.Trace, name)
